@@ -60,3 +60,8 @@ def run(rep, tier, seed):
     rep.cov["limit_kinds"] = lim_kinds
     rep.rule("%d random event models x 8 runs with per-state limits of every kind, boundary starts, magnitudes up "
              "to 3, fixed large tau, several epsilon; plus the complete _checkJump table" % n)
+
+
+def selftest(seed):
+    from checks import selftest as st
+    return st.run([st.jump])
